@@ -454,6 +454,39 @@ impl<'a, 'tcx> Cx<'a, 'tcx> {
                 }
             }
         }
+        // enum constants (`Some(false)`, `Ordering::Less`, a crate enum variant) by value or behind a reference
+        {
+            let (inner, is_ref) = match ty.kind() {
+                ty::Ref(_, t, _) => (*t, true),
+                _ => (ty, false),
+            };
+            let is_enum = matches!(inner.kind(), ty::Adt(a, _) if a.is_enum());
+            if is_enum && !c.has_non_region_param() {
+                if let Ok(cv) = c.eval(tcx, self.env, rustc_span::DUMMY_SP) {
+                    let pointee = if !is_ref {
+                        Some(cv)
+                    } else {
+                        match cv {
+                            mir::ConstValue::Scalar(mir::interpret::Scalar::Ptr(ptr, _)) => {
+                                let (prov, off) = ptr.into_raw_parts();
+                                Some(mir::ConstValue::Indirect { alloc_id: prov.alloc_id(), offset: off })
+                            }
+                            mir::ConstValue::Indirect { alloc_id, offset } => self
+                                .deref_stored_ref(alloc_id, offset.bytes() as usize, Some(1))
+                                .map(|(aid, off, _)| mir::ConstValue::Indirect { alloc_id: aid, offset: rustc_abi::Size::from_bytes(off as u64) }),
+                            _ => None,
+                        }
+                    };
+                    if let Some(pv) = pointee {
+                        if let Some(v) = self.enum_value(pv, inner, 0) {
+                            o.put("is_ref", J::Bool(is_ref));
+                            o.put("value", v);
+                            return o;
+                        }
+                    }
+                }
+            }
+        }
         // by-value tuples (`const UNIDENTIFIED: (u32, u32) = (0, 0)`) and references to tuples / structs
         {
             let (inner, is_ref) = match ty.kind() {
@@ -558,6 +591,48 @@ impl<'a, 'tcx> Cx<'a, 'tcx> {
             mir::ConstValue::Indirect { alloc_id, offset } => {
                 let alloc = self.alloc_of(alloc_id)?;
                 self.read_value(alloc, offset.bytes() as usize, t, 0)
+            }
+            _ => None,
+        }
+    }
+
+    /// an enum constant: {"enum": path, "variant": name, "fields": [values]} (fields: integers / bools / chars / nested enums and tuples)
+    fn enum_value(&self, cv: mir::ConstValue, t: Ty<'tcx>, depth: usize) -> Option<J> {
+        let tcx = self.tcx;
+        if depth > 3 {
+            return None;
+        }
+        if t.is_integral() || t.is_bool() || t.is_char() {
+            if let mir::ConstValue::Scalar(mir::interpret::Scalar::Int(si)) = cv {
+                let size = si.size();
+                let s = if t.is_signed() { format!("{}", si.to_int(size)) } else { format!("{}", si.to_uint(size)) };
+                return Some(J::obj().set("int", J::s(s)).set("ty", J::s(ty_str(t))));
+            }
+            return None;
+        }
+        match t.kind() {
+            ty::Adt(def, _) if def.is_enum() => {
+                let d = tcx.try_destructure_mir_constant_for_user_output(cv, t)?;
+                let vi = d.variant?;
+                let vdef = def.variant(vi);
+                let mut fields = Vec::new();
+                for (fv, fty) in d.fields.iter() {
+                    fields.push(self.enum_value(*fv, *fty, depth + 1)?);
+                }
+                Some(
+                    J::obj()
+                        .set("enum", J::s(with_no_trimmed_paths!(tcx.def_path_str(def.did()))))
+                        .set("variant", J::s(vdef.name.as_str()))
+                        .set("fields", J::Arr(fields)),
+                )
+            }
+            ty::Tuple(ts) if !ts.is_empty() => {
+                let d = tcx.try_destructure_mir_constant_for_user_output(cv, t)?;
+                let mut items = Vec::new();
+                for (fv, fty) in d.fields.iter() {
+                    items.push(self.enum_value(*fv, *fty, depth + 1)?);
+                }
+                Some(J::obj().set("tuple", J::Arr(items)))
             }
             _ => None,
         }
